@@ -18,7 +18,7 @@ var c05Table = map[xgen.Op]string{xgen.OpEq: "F", xgen.OpIn: "F", xgen.OpMatches
 	xgen.OpNe: "T", xgen.OpNotIn: "T", xgen.OpNotMatches: "T", xgen.OpEmpty: "T"}
 
 var c05Unknowns = []*univ.Node{univ.Str(""), univ.Str("abc"), univ.Bool(true), univ.Bool(false), univ.Int(0), univ.Int(7), univ.IntOf(univ.TInt64, -3), univ.UintOf(univ.TUint8, 200),
-	univ.Float(1.5), univ.FloatOf(univ.TFloat32, 0.5), univ.StrOf(univ.NamedScalarTypes[9], "abc"), univ.IntOf(univ.TInt8, 7), univ.UintOf(univ.TUint64, 1<<63)}
+	univ.Float(1.5), univ.FloatOf(univ.TFloat32, 0.5), univ.StrOf(univ.NamedScalarTypes[9], "abc"), univ.IntOf(univ.TInt8, 7), univ.UintOf(univ.TUint64, 1<<63), univ.NilIface(), univ.JSONNum("7")}
 
 var c05Lits = []string{"1", "abc", "", "7", "true", "1.5", "^a", "x", "200", "0"}
 
@@ -173,6 +173,10 @@ func c05Run(c *mon.Ctx, idx int) {
 		// quantifiers over the absent place
 		for _, all := range []bool{false, true} {
 			q := &xgen.Quant{All: all, Sel: sel, Mode: xgen.BindMode(r.Intn(4)), Name: "qk", Name2: "qv", Body: &xgen.Match{Sel: xgen.Sel{Parts: []string{"qk"}}, Op: xgen.OpEmpty}}
+			if q.Mode == xgen.BindIndexValue && pl.notPre && r.Intn(2) == 0 {
+				q.Name2 = "qk" // the same name twice: nothing is bound over an absent collection, so this is not an error there
+				c.Count("place-quant-same-name")
+			}
 			if q.Mode == xgen.BindValue {
 				q.Body = &xgen.Match{Sel: xgen.Sel{Parts: []string{"qv"}}, Op: xgen.OpEmpty}
 			}
@@ -284,12 +288,12 @@ func init() {
 	kinds := []string{"leaf-under-map", "leaf-under-map-behind-pointer", "root-key", "intermediate-under-map", "field-under-struct", "intermediate-under-struct", "index-out-of-range", "non-numeric-index", "step-into-scalar", "step-into-nil"}
 	mon.Register(&mon.Prop{
 		ID: "C05", Level: "exploration",
-		Rule:        "per case a seeded document in one of 5 Go representations; every place where a path can fail is derived from the datum's own shape (absent leaf under a map - also behind pointers/interfaces, root key, absent intermediate under map/struct, absent struct field, index out of range, non-numeric index, step into a scalar / nil); up to 8 places x all 8 operators + any/all in every binding mode. oracle (a): the table of the statement, copied literally; (b) with WithUnknownValue(v), v from 13 scalar values of different kinds: outcome must be in the reference's allowed set for 'resolved to v', must equal evaluating WITHOUT unknown value on a clone of the datum with v inserted at the missing key (when the parent map can hold v), and must stay an error when the failure is not an absent key/field; (c) expressions whose selectors all resolve: identical with and without unknown value; plus quantifier-heavy expressions against the reference for aliases. non-trivial = a place exercised with all operators; distinct by (place kind, selector, datum shape)",
+		Rule:        "per case a seeded document in one of 5 Go representations; every place where a path can fail is derived from the datum's own shape (absent leaf under a map - also behind pointers/interfaces, root key, absent intermediate under map/struct, absent struct field, index out of range, non-numeric index, step into a scalar / nil); up to 8 places x all 8 operators + any/all in every binding mode. oracle (a): the table of the statement, copied literally; (b) with WithUnknownValue(v), v from 15 values (scalars of different kinds, nil, json.Number): outcome must be in the reference's allowed set for 'resolved to v', must equal evaluating WITHOUT unknown value on a clone of the datum with v inserted at the missing key (when the parent map can hold v), and must stay an error when the failure is not an absent key/field; (c) expressions whose selectors all resolve: identical with and without unknown value; plus quantifier-heavy expressions against the reference for aliases. non-trivial = a place exercised with all operators; distinct by (place kind, selector, datum shape)",
 		Assumptions: []string{"which failures count as 'absent key or field' follows the statement: absent map key, absent struct field, absent intermediate or top-level key; out-of-range index and stepping into a scalar are not"},
 		NumCases:    func(tier string) int { return tierN(tier, 4000, 150000) },
 		Run:         c05Run,
 		Required: func(tier string) []string {
-			l := []string{"unknown:inserted-compared", "unknown:not-applicable", "resolving_unaffected", "alias_workload", "history_sequences"}
+			l := []string{"unknown:inserted-compared", "unknown:not-applicable", "resolving_unaffected", "alias_workload", "history_sequences", "place-quant-same-name", "unknown:interface{}"}
 			for _, k := range kinds {
 				l = append(l, "place-quant:"+k)
 				for _, op := range c01Ops {
